@@ -109,9 +109,101 @@ def _run_chunk(arg):
         except WallClock:
             r.ran("hang(wallclock)", key=case)
             r.violation("hang(wallclock)", "case did not finish within %ds" % timeout, case)
+        except MemoryError:
+            r.ran("resource(memory)", key=None)
+            r.extra["cases_out_of_memory"] += 1
         if len(r.samples) < 1 and i == 0:
             r.sample(case)
     return start, r.pack()
+
+
+def _worker_main(conn, prop_name, mem):
+    _init_worker(prop_name, mem)
+    while True:
+        try:
+            task = conn.recv()
+        except EOFError:
+            return
+        if task is None:
+            return
+        conn.send(_run_chunk(task))
+
+
+def run_pool(prop_name, mem, chunk_iter, merge, total):
+    """Own worker pool: survives the death of a worker (the chunk it held is re-run case by case in
+    fresh workers, and a case that kills its worker on its own is reported)."""
+    from multiprocessing.connection import wait as mpwait
+    ctx = mp.get_context("fork")
+    workers = {}  # conn -> (process, task)
+
+    def spawn():
+        parent, child = ctx.Pipe()
+        p = ctx.Process(target=_worker_main, args=(child, prop_name, mem), daemon=True)
+        p.start()
+        child.close()
+        workers[parent] = [p, None]
+        return parent
+
+    pending = collections.deque()  # tasks to retry (single cases)
+    it = iter(chunk_iter)
+    exhausted = False
+
+    def next_task():
+        nonlocal exhausted
+        if pending:
+            return pending.popleft()
+        if exhausted:
+            return None
+        try:
+            return next(it)
+        except StopIteration:
+            exhausted = True
+            return None
+
+    idle = [spawn() for _ in range(NWORKERS)]
+    while True:
+        while idle:
+            t = next_task()
+            if t is None:
+                break
+            c = idle.pop()
+            workers[c][1] = t
+            c.send(t)
+        busy = [c for c, (p, t) in workers.items() if t is not None]
+        if not busy:
+            break
+        for c in mpwait(busy, timeout=5):
+            p, t = workers[c]
+            try:
+                start, packed = c.recv()
+            except (EOFError, OSError):
+                # worker died while holding task t
+                p.join(timeout=1)
+                del workers[c]
+                start, cases, tier = t
+                if len(cases) > 1:
+                    for i, case in enumerate(cases):
+                        pending.append((start + i, [case], tier))
+                else:
+                    r = R()
+                    r.index = start
+                    r.ran("worker-died", key=cases[0])
+                    r.violation("worker-died", "the worker process died while running this case (exit code %r)" % p.exitcode, cases[0])
+                    merge(start, r.pack())
+                idle.append(spawn())
+                continue
+            workers[c][1] = None
+            idle.append(c)
+            merge(start, packed)
+    for c, (p, t) in workers.items():
+        try:
+            c.send(None)
+        except OSError:
+            pass
+    for c, (p, t) in workers.items():
+        p.join(timeout=2)
+        if p.is_alive():
+            p.terminate()
 
 
 def load_findings():
@@ -161,39 +253,34 @@ def run_property(prop_name, tier, seed, replay=None):
     extra = collections.Counter()
     ncases = 0
 
-    sem = threading.BoundedSemaphore(NWORKERS * 8)
-
-    def feeder():
+    def chunks():
         nonlocal ncases
         buf, start = [], 0
         for c in prop.cases(tier):
             buf.append(c)
             if len(buf) >= chunk:
-                sem.acquire()
                 yield (start, buf, tier)
                 start += len(buf)
                 ncases += len(buf)
                 buf = []
         if buf:
-            sem.acquire()
             yield (start, buf, tier)
             ncases += len(buf)
 
-    ctx = mp.get_context("fork")
-    with ctx.Pool(NWORKERS, initializer=_init_worker, initargs=(prop_name, mem)) as pool:
-        for start, packed in pool.imap_unordered(_run_chunk, feeder()):
-            sem.release()
-            ev, cl, ks, vs, ps, st, tr, sm, ex = packed
-            total["evals"] += ev
-            total["states"] += st
-            total["trans"] += tr
-            classes.update(cl)
-            keys |= ks
-            viols.extend(vs)
-            per_sig.update(ps)
-            extra.update(ex)
-            if sm and (len(samples) < 6 or (start // chunk) % 97 == seed % 97):
-                samples.extend((start, s) for s in sm[:1])
+    def merge(start, packed):
+        ev, cl, ks, vs, ps, st, tr, sm, ex = packed
+        total["evals"] += ev
+        total["states"] += st
+        total["trans"] += tr
+        classes.update(cl)
+        keys.update(ks)
+        viols.extend(vs)
+        per_sig.update(ps)
+        extra.update(ex)
+        if sm and (len(samples) < 6 or (start // chunk) % 97 == seed % 97):
+            samples.extend((start, s) for s in sm[:1])
+
+    run_pool(prop_name, mem, chunks(), merge, total)
     viols.sort(key=lambda v: v["index"])
     samples.sort(key=lambda s: s[0])
     if len(samples) > 6:
